@@ -67,11 +67,13 @@ impl HTree {
     }
 }
 
-/// The three fixed right trees used by the Merge transition inside HX.
+/// The fixed right trees used by the Merge transition inside HX.
 pub fn fixed_tree(k: u8) -> HTree {
     match k {
         0 => HTree { kids: vec![vec![]], data: vec![Some(0)] },
         1 => HTree { kids: vec![vec![(0, 1)], vec![]], data: vec![None, Some(1)] },
+        // the empty datum, on a vertex the left graph may have (root) and on one it may lack
+        3 => HTree { kids: vec![vec![(0, 1)], vec![]], data: vec![Some(2), Some(2)] },
         _ => HTree { kids: vec![vec![(0, 1), (1, 2)], vec![], vec![]], data: vec![Some(0), None, None] },
     }
 }
